@@ -172,7 +172,7 @@ def check_quiescent(view, expect_empty_dlq=True):
     waiting = any(s["status"] in ("SUSPENDED", "PAUSED") for s in view.stages.values()) or wf in ("BUFFERED", "PAUSED")
     if wf not in COMPLETE and not waiting:
         v.append({"kind": "stuck-not-final", "wf": wf, "stages": {l: s["status"] for l, s in view.stages.items()},
-                  "sig": f"stuck:{wf}"})
+                  "sig": "stuck:" + diagnose(view)})
     if wf == "SUCCEEDED":
         bad = {l: s["status"] for l, s in top.items() if s["status"] not in CONTINUABLE}
         if bad:
@@ -273,3 +273,88 @@ class DownstreamOfHaltMonitor(Monitor):
                     v.append({"kind": "ran-downstream-of-halted", "stage": e["stage"], "halted": a, "status": st,
                               "sig": "ran-after-halt"})
         return ms, v
+
+
+class CancelMonitor(Monitor):
+    """C17: once the cancel flag is durable no task starts executing; unfinished
+    stages end CANCELED; the workflow ends (CANCELED unless in effect finished)."""
+
+    name = "cancel"
+
+    def init(self, ex):
+        return {"at": None}
+
+    @staticmethod
+    def classify(view):
+        recorded = set()
+        for m in view.queue:
+            if m["type"] == "CompleteTask":
+                recorded.add(view.labels.get(m["payload"].get("task_id"), "?"))
+        out = {}
+
+        def eff(lab):
+            """every task has run to a recorded result (and so have the synthetic
+            children); only Complete* bookkeeping is pending"""
+            s = view.stages[lab]
+            if s["status"] in COMPLETE:
+                return True
+            if s["status"] != "RUNNING":
+                return False
+            kids = [k for k, ks in view.stages.items() if ks["parent"] == lab]
+            if not s["tasks"] and not kids:
+                return False
+            tasks_ok = all(t[1] in COMPLETE or (t[1] == "RUNNING" and f"{lab}#{t[0]}" in recorded) for t in s["tasks"])
+            return tasks_ok and all(eff(k) for k in kids)
+
+        for lab, s in view.stages.items():
+            if s["status"] in COMPLETE:
+                out[lab] = "finished:" + s["status"]
+            elif eff(lab):
+                out[lab] = "effectively-finished"
+            else:
+                out[lab] = "unfinished"
+        return out
+
+    def step(self, ex, tr, ms):
+        v = []
+        if ms["at"] is not None:
+            for e in tr.ledger:
+                v.append({"kind": "task-executed-after-cancel", "task": f"{e['stage']}#{e['task']}",
+                          "handling": handling(tr), "sig": f"ran-after-cancel:{handling(tr)}"})
+            return ms, v
+        if any(tbl == "WC" and str(new) == "1" for (_s, tbl, _i, _o, new) in tr.audit):
+            ms = {"at": self.classify(tr.post), "wf": tr.post.wf["status"]}
+        return ms, v
+
+    def final(self, ex, view, ms, state):
+        if ms["at"] is None:
+            return []
+        v = []
+        wf = view.wf["status"]
+        if wf not in COMPLETE:
+            v.append({"kind": "canceled-workflow-not-final", "wf": wf, "sig": "cancel-not-final:" + diagnose(view)})
+        top_unfinished = False
+        for lab, cls in ms["at"].items():
+            s = view.stages.get(lab)
+            if s is None:
+                continue
+            now = s["status"]
+            if cls.startswith("finished:"):
+                if now != cls.split(":", 1)[1]:
+                    v.append({"kind": "finished-stage-changed-after-cancel", "stage": lab, "was": cls, "now": now,
+                              "sig": "finished-changed-after-cancel"})
+            elif cls == "effectively-finished":
+                if now not in COMPLETE:
+                    v.append({"kind": "stage-not-ended-after-cancel", "stage": lab, "now": now,
+                              "sig": f"not-ended-after-cancel:{now}"})
+            else:
+                if not s["synthetic"]:
+                    top_unfinished = True
+                if now != "CANCELED" and not (s["synthetic"] and now == "NOT_STARTED"):
+                    v.append({"kind": "unfinished-stage-not-canceled", "stage": lab, "now": now,
+                              "synthetic": s["synthetic"], "sig": f"unfinished-not-canceled:{now}"})
+        if top_unfinished and wf in COMPLETE and wf != "CANCELED" and ms.get("wf") not in COMPLETE:
+            # TERMINAL wins over CANCELED in the published outcome function when a stage had failed terminally
+            if not (wf == "TERMINAL" and any(s["status"] == "TERMINAL" for s in view.stages.values())):
+                v.append({"kind": "workflow-not-canceled", "wf": wf, "sig": f"workflow-not-canceled:{wf}"})
+        return v
